@@ -48,17 +48,17 @@ CLAIMS = {
     'C11': ('loop-shape rules (bounded counter, mutation confinement, flag discipline) + error forwarding',
             'Decides that every mutation of the token stream is confined to a strictly bounded counted loop with one rewrite per '
             'iteration, for all inputs and macro sets, and that exhaustion is reported and forwarded. Termination of each detect() call '
-            'is assumed. The one-rewrite-per-pass and flag clauses are path properties of the CFG (flag-sensitive reachability), the pass counter is as wide as the budget, and the merge of stage errors is unconditional.', '4/C11'),
+            'is assumed. The one-rewrite-per-pass and flag clauses are path properties of the CFG (flag-sensitive reachability), the pass counter can hold every budget value (width and sign), the loop makes exactly budget passes (start value, uncast bound), and the merge of stage errors is unconditional and precedes the correctness decision (shared C02.e).', '4/C11'),
     'C12': ('data-flow/who-may-reach rules over detector lists, conflict-checked table writes, comparator evaluation of LR container keys',
             'PARTIAL. Decides that a conflict becomes exactly one error at the pattern position, that rejected detectors never reach the '
             'bins, that collection does not stop early, that every table write is conflict-checked and that prefix mode covers all columns. '
-            'Does not decide that conflicts coincide with non-prefix-determinism. Also: the conflict verdict is produced by table generation on every path through the detector\'s constructor; the pattern grammar equals the language (shared C09.h).', '4/C12'),
+            'Does not decide that conflicts coincide with non-prefix-determinism. Also: the conflict verdict is produced by table generation on every path through the detector\'s constructor; the pattern grammar equals the language (shared C09.h); for every pattern up to 3 (thorough: 4) symbols over the slot kinds and eleven literals the conflict verdict of the table generator\'s criterion under the constructor\'s slot grammar equals the verdict under the reference slot grammar (C12.k, canonical LR(1) item sets); errors of all detectors are accumulated.', '4/C12'),
     'C02': ('allocation-site shape/nullness analysis of the syntax tree (parser + generator), guard/dominance rules for cursors, emptiness, ownership pairing, result dichotomy',
             'PARTIAL. Decides: no NULL syntax-tree pointer is dereferenced (parser on every execution with look-ahead-sensitive '
             'summaries; generator on every error-free tree shape), cursors/indices are guarded, back()/[0] only on provably '
             'non-empty sequences (with reasoned, re-verified exceptions), allocations are paired with releases on all paths, the '
             'result is correct XOR has errors, error records are well formed. Does not decide recursion-depth/work bounds, '
-            'bad_alloc, libstdc++/flex internals or the LR driver stack discipline. Added later: no use of a reference/iterator into a sequence container after an invalidating operation; a token filled in by yylex is read only after a successful call; conversions do not throw out of compile(); macro work bounded by the pass budget (shared C11.a); the parser\'s recursion follows nesting, not length (five sequence recursions are a recorded known finding, D13).', '4/C02'),
+            'bad_alloc, libstdc++/flex internals or the LR driver stack discipline. Added later: no use of a reference/iterator into a sequence container after an invalidating operation; a token filled in by yylex is read only after a successful call; conversions do not throw out of compile(); macro work bounded by the pass budget (shared C11.a); the parser\'s recursion follows nesting, not length (five sequence recursions are a recorded known finding, D13); scalar locals are definitely assigned before they are read (C02.q).', '4/C02'),
     'C08': ('pairing / who-may-write rules over the two breakpoint tables; constant agreement across units',
             'Decides that both tables are updated together with the index of the emitted site and the current location, that '
             'removal is exact, that nobody else writes the tables or creates sites, that the hidden file is excluded by the '
